@@ -70,6 +70,7 @@ type runState struct {
 	sched
 	intrinsicState
 	concFails []string
+	hashes    []hashRecord
 }
 
 func (i *interpreter) replaying() bool { return i.dptr < len(i.w.decisions) }
